@@ -434,7 +434,7 @@ class LanguageCsharp(Language):
                 if isinstance(inheritance, Inheritance):
                     if inheritance.CLASS_TO_ID.find(classObj.ID) > -1:
                         # classes before interfaces in inheritance hierarchy
-                        fixed_name = inheritance.CLASS_FROM.replace(classObj.NAMESPACE + "::","")
+                        fixed_name = StripOwnNamespace(inheritance.CLASS_FROM, classObj.NAMESPACE)
                         if classObj.parent_classDiagram.classes[inheritance.CLASS_FROM_ID].PURE_VIRTUAL_INTERFACE:
                             _interfaces_str = _interfaces_str + ' ' + fixed_name + ", "
                         else:
@@ -923,7 +923,7 @@ def _getNamespaceToClassesFromFullyQualifiedNames(classObj, setOfClasses, is_fil
     for f in sorted(setOfClasses):  # a set: iterate in a defined order, or the output changes with the hash seed
         if is_file_include:
             # If a class is in the same namespace...then it is in the same folder...so clean this first.
-            f = f.replace(classObj.NAMESPACE + "::", "")
+            f = StripOwnNamespace(f, classObj.NAMESPACE)
         full = f.split("::")
         ns = f.replace(full[-1], "")
         if is_file_include:  # when using this for include files, switch :: with /
